@@ -86,6 +86,16 @@ def eval_literal(node, env):
         return tuple(eval_literal(e, env) for e in node.elts)
     if isinstance(node, ast.Set):
         return {eval_literal(e, env) for e in node.elts}
+    if isinstance(node, ast.BinOp) and isinstance(node.op, ast.Add):
+        # a table split over several named literals and put together again: A + B (lists, tuples, strings)
+        a, b = eval_literal(node.left, env), eval_literal(node.right, env)
+        if type(a) is type(b) and isinstance(a, (list, tuple, str)):
+            return a + b
+        raise ValueError("+ of %s and %s" % (type(a).__name__, type(b).__name__))
+    if isinstance(node, ast.Call) and isinstance(node.func, ast.Name) and node.func.id in ("list", "tuple", "set", "frozenset") and len(node.args) == 1 \
+            and not node.keywords:
+        v = eval_literal(node.args[0], env)
+        return {"list": list, "tuple": tuple, "set": set, "frozenset": frozenset}[node.func.id](v)
     return ast.literal_eval(node)
 
 
